@@ -443,7 +443,22 @@ func ruleC01OldKeysAddressable(c *Ctx) {
 	// no deletions
 	bad := ""
 	for _, f := range u.RepoFuncs {
-		if rootFunc(f).Signature.Recv() == nil || namedTypeName(rootFunc(f).Signature.Recv().Type()) != "keyCache" {
+		root := rootFunc(f)
+		if root.Pkg == nil || root.Pkg.Pkg.Path() != pkgApp {
+			continue
+		}
+		isKC := root.Signature.Recv() != nil && namedTypeName(root.Signature.Recv().Type()) == "keyCache"
+		if !isKC {
+			// anywhere else in the package (the eviction callback built by newKeyCache, a session): the latest index
+			allInstrs(f, func(i ssa.Instruction) {
+				if cc := callOf(i); cc != nil {
+					if b, ok := cc.Value.(*ssa.Builtin); ok && (b.Name() == "delete" || b.Name() == "clear") && len(cc.Args) > 0 {
+						if _, fld, isF := fieldAccess(strip(cc.Args[0])); isF && fld == "latest" {
+							bad = u.ipos(i) + " " + b.Name() + " on the key cache's latest index"
+						}
+					}
+				}
+			})
 			continue
 		}
 		allInstrs(f, func(i ssa.Instruction) {
@@ -816,6 +831,54 @@ func ruleC01NoExtraGateOnRead(c *Ctx) {
 	scan(root, 0)
 	if n < 3 {
 		c.bad("DecryptDataRowRecord/own-errors", "", fmt.Sprintf("expected at least 3 structural refusals (Key, ParentKeyMeta, partition), found %d", n))
+	}
+	// the rest of the read path: the key loaders refuse only a missing record / missing parent meta, and AEAD Decrypt
+	// only an input shorter than nonce + tag — what authenticates is handed back as it is (also when it is empty)
+	lenOfParam := func(v ssa.Value, f *ssa.Function) bool {
+		cv, ok := strip(v).(*ssa.Call)
+		if !ok {
+			return false
+		}
+		if b, isB := cv.Call.Value.(*ssa.Builtin); !isB || b.Name() != "len" || len(cv.Call.Args) != 1 {
+			return false
+		}
+		p, isP := resolve(cv.Call.Args[0]).(*ssa.Parameter)
+		return isP && p.Parent() == f
+	}
+	var extra []*ssa.Function
+	for _, m := range []string{"loadIntermediateKey", "loadSystemKey"} {
+		if f := u.Method(pkgApp, "envelopeEncryption", m); f != nil {
+			extra = append(extra, f)
+		}
+	}
+	if f := u.Method(pkgAead, "cryptoFunc", "Decrypt"); f != nil {
+		extra = append(extra, f)
+	}
+	for _, f := range extra {
+		if f.Blocks == nil {
+			continue
+		}
+		c.FuncsAnalysed[shortName(f)] = true
+		for _, r := range returnsOf(f) {
+			if len(r.Results) == 0 {
+				continue
+			}
+			ev := returnedValue(r, len(r.Results)-1)
+			if !isErrorType(ev.Type()) || !isOwnError(ev) {
+				continue
+			}
+			bad := ""
+			for _, fct := range baseFactsAt(r.Block()) {
+				if _, _, ok := nilTest(fct); ok {
+					continue
+				}
+				if bo, ok := fct.V.(*ssa.BinOp); ok && (lenOfParam(bo.X, f) || lenOfParam(bo.Y, f)) {
+					continue
+				}
+				bad = describeLeaf(fct.V)
+			}
+			c.check(bad == "", trimPkgDirs(shortName(f))+"/own-error-return", u.ipos(r), "refusal only for a missing record / parent meta or a too-short input", "the read path refuses data on a condition beyond the documented structural checks ("+bad+"): records and keys that follow the documented format — an empty payload, a key hierarchy whose timestamps were truncated differently by different writers — no longer decrypt")
+		}
 	}
 }
 
